@@ -349,12 +349,11 @@ theorem queryText_chars (q : List (Text × Option Text)) (hq : ∀ kv ∈ q, Pai
 /-- "a valid scheme, host and port", an absolute path, no (empty key, no value) parameter, and every
     component faithfully quoted in the mode at hand (`D` = what it decodes to) -/
 structure WFq (u : URL) : Prop where
-  scheme_ne : u.scheme ≠ []
   scheme_ok : ∀ c ∈ u.scheme, notIn schemeStop c = true
   host_ne : u.host ≠ []
   host_form : HostOK env full u
-  idna_dec : env.idnaDec u.host = some u.host
-  port_ok : PortOK u
+  idna_dec : isAsciiText u.host = true → env.idnaDec u.host = some u.host
+  port_ok : PortNat u
   path_abs : ∃ rest, u.pathParts = [] :: rest
   query_ok : ∀ kv ∈ u.query, ¬ (D kv.1 = [] ∧ kv.2 = none)
   user_scalar : ∀ x ∈ env.nfc u.username, isScalar x = true
@@ -365,9 +364,11 @@ structure WFq (u : URL) : Prop where
   q_frag : Quoted .fragment (quotePart .fragment env.nfc full u.fragment) (D u.fragment)
 
 /-- what comes back: userinfo NFC-normalised (it is always fully quoted), the other texts decoded,
-    the `//` remembered; scheme, host, family, port unchanged -/
+    the `//` remembered; scheme, host, family unchanged; the port unchanged unless it is zero or the scheme's
+    default (`portBack`: those are not rendered) -/
 def normalG (u : URL) : URL :=
   { u with netlocSep := true
+           port := portBack u
            username := env.nfc u.username
            password := env.nfc u.password
            pathParts := u.pathParts.map D
@@ -376,7 +377,7 @@ def normalG (u : URL) : URL :=
 
 /-- the rendered text, spelled out -/
 def urlText (u : URL) : Text :=
-  u.scheme ++ 58 :: 47 :: 47 :: ((uiText env u ++ hostinfo u) ++
+  spart u.scheme ++ 47 :: 47 :: ((uiText env u ++ hostinfo u) ++
     (pathText env full u.pathParts ++ (qpart (queryText env full u.query) ++
       fpart (quotePart .fragment env.nfc full u.fragment))))
 
@@ -385,21 +386,21 @@ theorem toText_urlText (u : URL) (hW : WFq env full D u) : toText env full u = .
   have hf := hostFacts_of_ok env full u hW.host_ne hW.port_ok hW.host_form
   unfold toText
   rw [authority_any env full u hW.host_ne hW.host_form]
-  simp only [hW.scheme_ne, false_and, if_false]
-  congr 1
   have hauth : uiText env u ++ hostinfo u ≠ [] := by simp [hf.ne]
+  simp only [hauth, and_false, if_false]
+  congr 1
   have hpath := pathText_abs env full hW.q_nil rest
   rw [← hrest] at hpath
-  unfold assemble urlText qpart fpart
-  simp only [hW.scheme_ne, ne_eq, not_false_eq_true, if_true, hauth, true_and]
+  unfold assemble urlText qpart fpart spart
+  simp only [ne_eq, hauth, not_false_eq_true, if_true]
   have hp : (if ¬ pathText env full u.pathParts = [] then
-      (if ¬ (pathText env full u.pathParts).head? = some 47 then 47 :: pathText env full u.pathParts
+      (if ¬ u.scheme = [] ∧ True ∧ ¬ (pathText env full u.pathParts).head? = some 47 then 47 :: pathText env full u.pathParts
        else pathText env full u.pathParts) else []) = pathText env full u.pathParts := by
     rcases hpath with h | h
     · simp [h]
     · simp [h]
   rw [hp]
-  simp [List.append_assoc]
+  by_cases hsn : u.scheme = [] <;> simp [hsn, List.append_assoc]
 
 theorem urlText_scanned (u : URL) (hW : WFq env full D u) :
     Scanned (urlText env full u) u.scheme (uiText env u ++ hostinfo u)
@@ -408,7 +409,7 @@ theorem urlText_scanned (u : URL) (hW : WFq env full D u) :
   obtain ⟨rest, hrest⟩ := hW.path_abs
   have hpath := pathText_abs env full hW.q_nil rest
   rw [← hrest] at hpath
-  exact scan_composed _ _ _ _ _ hW.scheme_ne hW.scheme_ok
+  exact scan_composed _ _ _ _ _ hW.scheme_ok
     (authText_chars env u (hostFacts_of_ok env full u hW.host_ne hW.port_ok hW.host_form)
       hW.user_scalar hW.pw_scalar)
     (pathText_chars env full D u.pathParts hW.q_parts) hpath
@@ -424,7 +425,13 @@ theorem ofText_urlText (u : URL) (hW : WFq env full D u) (hnil : env.nfc [] = []
   unfold URL.ofText
   simp only [hS.scheme, hS.auth, hS.path, hS.query, hS.frag, Option.getD_some, Option.isSome_some]
   rw [parseAuthority_render env u hf hW.user_scalar hW.pw_scalar]
-  simp only [hW.host_ne, if_false, hf.ascii, if_true, hW.idna_dec]
+  have hdec : (if u.host = [] then some [] else if isAsciiText u.host = true then env.idnaDec u.host else some u.host)
+      = some u.host := by
+    rw [if_neg hW.host_ne]
+    by_cases ha : isAsciiText u.host = true
+    · rw [if_pos ha]; exact hW.idna_dec ha
+    · rw [if_neg ha]
+  simp only [hdec]
   have hparts : u.pathParts ≠ [] := by rw [hrest]; simp
   rw [pathText_parts env full D u.pathParts hparts hW.q_parts]
   rw [parseQsl_queryText env full D u.query hW.q_query hW.query_ok]
@@ -481,10 +488,33 @@ theorem normalG_pairText (kv : Text × Option Text) :
   obtain ⟨k, v⟩ := kv
   cases v <;> simp [pairText, decPair, hD]
 
+theorem normalG_hostinfo (u : URL) : hostinfo (normalG env D u) = hostinfo u := by
+  have hp : portText (normalG env D u) = portText u := by
+    unfold portText normalG portBack
+    cases hport : u.port with
+    | none => rfl
+    | some p =>
+      by_cases h : p ≠ 0 ∧ some p ≠ (defaultPort u.scheme).map Int.ofNat
+      · simp [h]
+      · simp [h]
+  unfold hostinfo
+  rw [hp]
+  rfl
+
+theorem normalG_portNat (u : URL) (h : PortNat u) : PortNat (normalG env D u) := by
+  rcases h with h | ⟨p, hp⟩
+  · left; simp [normalG, portBack, h]
+  · unfold PortNat normalG portBack
+    rw [hp]
+    simp only []
+    split
+    · right; exact ⟨p, rfl⟩
+    · left; rfl
+
 include hl hD in
 theorem normalG_urlText (u : URL) : urlText env full (normalG env D u) = urlText env full u := by
   unfold urlText
-  rw [normalG_uiText env D hl u]
+  rw [normalG_uiText env D hl u, normalG_hostinfo env D u]
   have hp : pathText env full (normalG env D u).pathParts = pathText env full u.pathParts := by
     simp only [pathText, normalG, List.map_map]
     congr 1
@@ -504,7 +534,6 @@ theorem normalG_urlText (u : URL) : urlText env full (normalG env D u) = urlText
 
 include hl hD hDD hDnil in
 theorem normalG_WFq (u : URL) (hW : WFq env full D u) : WFq env full D (normalG env D u) where
-  scheme_ne := hW.scheme_ne
   scheme_ok := hW.scheme_ok
   host_ne := hW.host_ne
   host_form := by
@@ -512,7 +541,7 @@ theorem normalG_WFq (u : URL) (hW : WFq env full D u) : WFq env full D (normalG 
     | name a b c => exact .name a b c
     | v6 a b c d => exact .v6 a b c d
   idna_dec := hW.idna_dec
-  port_ok := hW.port_ok
+  port_ok := normalG_portNat env D u hW.port_ok
   path_abs := by
     obtain ⟨rest, h⟩ := hW.path_abs
     exact ⟨rest.map D, by simp [normalG, h, hDnil]⟩
@@ -578,15 +607,14 @@ structure Scalars (env : Env) (u : URL) : Prop where
   query : ∀ kv ∈ u.query, (∀ x ∈ env.nfc kv.1, isScalar x = true) ∧
     ∀ v, kv.2 = some v → ∀ x ∈ env.nfc v, isScalar x = true
 
-/-- FULL quoting: "a valid scheme, host (registered name / IPv4 / IPv6 literal) and port" + an absolute path + no (empty key, no value)
-    parameter; the component texts are arbitrary -/
+/-- FULL quoting: "a valid scheme, host (registered name / IPv4 / IPv6 literal) and port" (absent or any natural
+    number, `port = *DIGIT`) + an absolute path + no (empty key, no value) parameter; the component texts are arbitrary -/
 structure WF (env : Env) (u : URL) : Prop where
-  scheme_ne : u.scheme ≠ []
   scheme_ok : ∀ c ∈ u.scheme, notIn schemeStop c = true
   host_ne : u.host ≠ []
   host_form : HostOK env true u
-  idna_dec : env.idnaDec u.host = some u.host
-  port_ok : PortOK u
+  idna_dec : isAsciiText u.host = true → env.idnaDec u.host = some u.host
+  port_ok : PortNat u
   path_abs : ∃ rest, u.pathParts = [] :: rest
   query_ok : ∀ kv ∈ u.query, ¬ (env.nfc kv.1 = [] ∧ kv.2 = none)
   scalars : Scalars env u
@@ -595,7 +623,6 @@ theorem quotePart_nil_full (c : Comp) (nfc : Text → Text) (hnil : nfc [] = [])
   simp [quotePart, quoteFull, utf8, hnil]
 
 theorem WF.toWFq {env : Env} {u : URL} (hW : WF env u) (hnil : env.nfc [] = []) : WFq env true env.nfc u where
-  scheme_ne := hW.scheme_ne
   scheme_ok := hW.scheme_ok
   host_ne := hW.host_ne
   host_form := hW.host_form
@@ -612,6 +639,24 @@ theorem WF.toWFq {env : Env} {u : URL} (hW : WF env u) (hnil : env.nfc [] = []) 
      fun v hv => quoted_full .query env.nfc v ((hW.scalars.query kv hkv).2 v hv)⟩
   q_frag := quoted_full .fragment env.nfc u.fragment hW.scalars.fragment
 
+/-- `WF` does not care which natural number the port is (or whether there is one) -/
+theorem WF.withPort {env : Env} {u : URL} (hW : WF env u) (p : Option Nat) :
+    WF env { u with port := p.map Int.ofNat } where
+  scheme_ok := hW.scheme_ok
+  host_ne := hW.host_ne
+  host_form := by
+    cases hW.host_form with
+    | name a b c => exact .name a b c
+    | v6 a b c d => exact .v6 a b c d
+  idna_dec := hW.idna_dec
+  port_ok := by
+    cases p with
+    | none => exact Or.inl rfl
+    | some n => exact Or.inr ⟨n, rfl⟩
+  path_abs := hW.path_abs
+  query_ok := hW.query_ok
+  scalars := ⟨hW.scalars.username, hW.scalars.password, hW.scalars.fragment, hW.scalars.parts, hW.scalars.query⟩
+
 /-- what comes back in full mode: every text NFC-normalised, the `//` remembered -/
 def normal (env : Env) (u : URL) : URL := normalG env env.nfc u
 
@@ -621,12 +666,11 @@ def fullText (env : Env) (u : URL) : Text := urlText env true u
 /-- MINIMAL quoting: the same shape, and no `%` in a path segment, query key / value or fragment
     (username and password are always fully quoted, so they may contain anything) -/
 structure WFmin (env : Env) (u : URL) : Prop where
-  scheme_ne : u.scheme ≠ []
   scheme_ok : ∀ c ∈ u.scheme, notIn schemeStop c = true
   host_ne : u.host ≠ []
   host_form : HostOK env false u
-  idna_dec : env.idnaDec u.host = some u.host
-  port_ok : PortOK u
+  idna_dec : isAsciiText u.host = true → env.idnaDec u.host = some u.host
+  port_ok : PortNat u
   path_abs : ∃ rest, u.pathParts = [] :: rest
   query_ok : ∀ kv ∈ u.query, ¬ (kv.1 = [] ∧ kv.2 = none)
   user_scalar : ∀ x ∈ env.nfc u.username, isScalar x = true
@@ -636,7 +680,6 @@ structure WFmin (env : Env) (u : URL) : Prop where
   no_pct_frag : 37 ∉ u.fragment
 
 theorem WFmin.toWFq {env : Env} {u : URL} (hW : WFmin env u) : WFq env false id u where
-  scheme_ne := hW.scheme_ne
   scheme_ok := hW.scheme_ok
   host_ne := hW.host_ne
   host_form := hW.host_form
